@@ -85,3 +85,10 @@ func genCase(r *rand.Rand) Case {
 	}
 	return cs
 }
+
+// genLong builds a long scenario: tens of thousands of tiny full writes next to an eager
+// consumer that never yields, so that writer and consumer run at about the same rate.
+func genLong(r *rand.Rand) Case {
+	return Case{WKind: "full", SW: r.Intn(2) == 0, LongN: 20000 + r.Intn(80001), LongSeed: r.Int63(),
+		Cons: Consumer{Kind: "eager", PauseAt: -1, Lazy: r.Intn(2) == 0}}
+}
